@@ -1,9 +1,12 @@
 SPECIFICATION TraceSpec
 CONSTANTS N = 24 UCap = 26 WakeAll = TRUE WithContent = TRUE
+          Views = {"pub", "full", "own"} ReduceKey = TRUE WireStops = FALSE WireLen = 1
 INVARIANT TraceAccepted
 INVARIANT TypeOK
+INVARIANT KeyIsPublic
 INVARIANT OnlyValidConnected
 INVARIANT Complete
 INVARIANT NeverBad
 INVARIANT ContentBound
 INVARIANT PublicRoundTrip
+INVARIANT PublicReloadsClean
